@@ -12,6 +12,7 @@ MCAmounts   == {[neg |-> i < 0, mag |-> IF i < 0 THEN -i ELSE i] : i \in (-AmtRa
 MCFaults    == {"garbage", "altbal", "altcid", "altlock", "wrongtype", "oldstate", "otherkey", "wrongbf", "identity"}
 MCRevKinds  == {"newstate", "wrongbf", "otherchan", "bothwrong"}
 MCNone      == {}
+MCInitBalsCover == {<<0, 0>>, <<7, 0>>, <<0, 7>>, <<3, 4>>, <<7, 7>>, <<1, 6>>}
 MCAdv       == {2}
 HonestSpec  == Init /\ [][HonestNext]_vars
 
